@@ -53,7 +53,7 @@ func vAlphaIndex(ch byte) int {
 	return idx
 }
 
-// verif: unwind=64 budget_thorough_s=14400 cover=valid,invalid bounds="every 43-byte text with at most 1 (quick) / 2 (thorough) CR/LF characters: accepted iff all characters are in the alphabet, and then the id is the 256 leading bits"
+// verif: unwind=64 cover=valid,invalid bounds="every 43-byte text with at most 1 CR/LF character: accepted iff all characters are in the alphabet, and then the id is the 256 leading bits (2 CR/LF did not finish within an hour and is outside the claim)"
 func VH_C17_peerIDStrictDecode() bool {
 	txt := vBytesN(43)
 	allValid := true
@@ -64,11 +64,7 @@ func VH_C17_peerIDStrictDecode() bool {
 		allValid = vAnd(allValid, acc[i] < 64)
 		nl += vIte(vOr(txt[i] == 10, txt[i] == 13), 1, 0)
 	}
-	maxNL := 1
-	if vThorough() {
-		maxNL = 2
-	}
-	vAssume(nl <= maxNL)
+	vAssume(nl <= 1)
 	var id PeerID
 	err := id.UnmarshalText(txt)
 	if !allValid {
